@@ -42,8 +42,8 @@ def _dispatch(model: Model):
             t = c.args[1]
             if isinstance(t, ast.Name) and len(defs.get(t.id, [])) == 1:
                 t = defs[t.id][0]
-            elif isinstance(t, ast.Name) and t.id not in defs and isinstance(fwd.module.assigns.get(t.id), ast.AST):
-                t = fwd.module.assigns[t.id]              # a module-level table
+            elif isinstance(t, ast.Name) and t.id not in defs and isinstance(fwd.module.const(t.id), ast.AST):
+                t = fwd.module.const(t.id)              # a module-level table
             for k, v in dict_literal_entries(t) or []:
                 if isinstance(k, ast.Constant):
                     r = model.resolve_expr(fwd.module, v)
